@@ -1,15 +1,7 @@
-"""C02-W: the ISO week computation of days_to_wyear, checked against the definitions its intermediate quantities must satisfy.
+"""C02-W: the ISO 8601 week number computed by days_to_wyear, decided for every date by residue classes of the 400-year cycle.
 
-With (y, m, day) the calendar date of the day (days_to_date summarised, month case-split) and for years >= 1:
-  (i)   f, the zero-based day of the year, equals (days before month m in a common year) + day - 1 (+ s from March on),
-        where s is the leap flag the function derives itself;
-  (ii)  g - e is congruent to (y - 1) + L(y) modulo 7 with L(y) = (y-1)/4 - (y-1)/100 + (y-1)/400, i.e. the Monday-based
-        weekday of 1 January (365 = 1 mod 7), so that
-  (iii) d = (f + g - e) mod 7 is the Monday-based weekday of the day, in [0, 6];
-  (iv)  n = f + 3 - d is the day of the year of the Thursday of the day's week, and the result is n / 7 + 1 when
-        0 <= n <= 364 + s, week 1 when n > 364 + s (the Thursday lies in the next year) and the last week of the
-        previous year (structure only) when n < 0.
-These pin every constant of the formula (153, +2, 5, 58, 31, 3, 7, 364) to the ISO 8601 definition."""
+(An earlier version of this rule proved the formula symbolically for the years >= 1 only; it was replaced by the class analysis below
+when that showed the week numbers of years before 0001 to be wrong -- see DESIGN.md section 7.)"""
 from . import domain as D
 from . import textsem as T
 
@@ -17,99 +9,210 @@ WY = 'util::date::convert::days_to_wyear'
 CUM = [0, 31, 59, 90, 120, 151, 181, 212, 243, 273, 304, 334]
 
 
-def check_iso_week(ctx, Numeric):
-    N = Numeric(ctx, 'default', max_disj=400, max_steps=400_000)
+# ------------------------------------------------------------------------------------------------------------------
+# C02-W: the ISO week of every date, by residue classes of the 400-year cycle (both eras)
+LEN = [31, 28, 31, 30, 31, 30, 31, 31, 30, 31, 30, 31]
+KMAX = 14_698
+I32 = {'k': 'int', 's': True, 'bits': 32, 'name': 'i32'}
+U32 = {'k': 'int', 's': False, 'bits': 32, 'name': 'u32'}
+
+
+def o_leap(A):
+    return A % 4 == 0 and (A % 100 != 0 or A % 400 == 0)
+
+
+def o_jan1(A):
+    """day number of 1 January of the astronomical year A (0001-01-01 = 0, a Monday)"""
+    b = A - 1
+    return 365 * b + b // 4 - b // 100 + b // 400
+
+
+def o_weeks(A):
+    J = o_jan1(A) % 7
+    return 53 if (J == 3 or (o_leap(A) and J == 2)) else 52
+
+
+def o_week(A, m, day):
+    """ISO 8601 week number from the definition: the week (Monday..Sunday) belongs to the year that holds its Thursday"""
+    leap = o_leap(A)
+    doy0 = CUM[m - 1] + (1 if (leap and m >= 3) else 0) + day - 1
+    wd = (doy0 + o_jan1(A)) % 7
+    n = doy0 + 3 - wd
+    if n < 0:
+        return n, o_weeks(A - 1)
+    if n > 364 + (1 if leap else 0):
+        return n, 1
+    return n, n // 7 + 1
+
+
+def _week_worker(job):
+    from .cli import Ctx
+    from .numeric import Numeric
+    from .absint import St
+    from .models import const_int
+    cfg, chunk = job
+    ctx = Ctx('C02', 'quick', 0)
+    N = Numeric(ctx, cfg, max_disj=200, max_steps=400_000)
     I = N.I
-    if WY not in I.bodies:
-        ctx.finding('C02:ANCHOR|isoweek', 'C02-W ISO week', None, 'ANCHOR-MISSING: days_to_wyear')
-        return
-    K = T.Kernels(I)
-    I.contracts.pop(T.K_WYEAR, None)
-    names = ['a', 'b', 'c', 's', 'e', 'f', 'g', 'd', 'n']
-    have = {n for _l, n in I.bodies[WY].get('names', [])}
-    if not set(names) <= have:
-        ctx.finding('C02:ANCHOR|isoweek-locals', 'C02-W ISO week', I.bodies[WY]['span'],
-                    f'ANCHOR-MISSING: days_to_wyear no longer has the intermediate values {sorted(set(names) - have)} of the week formula')
-        return
-    I.watch[WY] = names
+    I.watch[WY] = ['f', 'd', 'n']
     I.return_partition[WY] = lambda I_, st, v: id(st)
-    N.run(WY, variants=('fixed',))
-    span = I.bodies[WY]['span']
-    total = good = 0
-    kinds = set()
-    for args, st0, outs in N.results.get(WY, []):
-        days = args[0][1]
-        for st, rv in outs:
+    KV = D.sym_vid(0, KMAX, 'cycle')
+    DAY = D.sym_vid(1, 31, 'day')
+    cur = {}
+
+    def k_dtd(I_, st, args, dty, site):
+        kind, era, j = cur['year']
+        # AD years = 1 (mod 400): the year 1 itself is analysed as a constant (its January / February look at the year before it)
+        st.iv[KV] = (1 if (kind == 'class' and era > 0 and j == 1) else 0, KMAX)
+        st.iv[DAY] = (1, cur['len'])
+        if kind == 'class':
+            y = I_.binop(st, 'Mul', ('i', KV, 'i32'), const_int(400 * era, 'i32'), I32, None, None)
+            y = I_.binop(st, 'Add', y, const_int(era * j, 'i32'), I32, None, None)
+        else:
+            y = const_int(j, 'i32')
+        return [(st, ('t', (y, const_int(cur['m'], 'u32'), ('i', DAY, 'u32'))))]
+    I.contracts[T.K_DTD] = k_dtd
+    problems = []
+    npaths = 0
+    for (ykind, era, j, A, m) in chunk:
+        leap = o_leap(A)
+        ln = LEN[m - 1] + (1 if (leap and m == 2) else 0)
+        cur.update({'year': (ykind, era, j), 'm': m, 'len': ln})
+        yname = (f'{"AD" if era > 0 else "BC"} years = {j} (mod 400)' if ykind == 'class' else f'year {j}')
+        name = f'{yname}|month {m}'
+        st = St()
+        st.frames[0] = {}
+        I.cur_entry = 'C02 iso week'
+        I.stack = []
+        try:
+            outs = I.call_body(st, WY, [I.top(st, I32, 'days')], ('entry', WY))
+        except Exception as e:      # noqa
+            problems.append((name, f'analysis failed: {e}'))
+            I.stack = []
+            continue
+        J = o_jan1(A) % 7
+        C1 = CUM[m - 1] + (1 if (leap and m >= 3) else 0) - 1
+        oracle = [o_week(A, m, dd) for dd in range(1, ln + 1)]
+        seen_n = set()
+        msg = None
+        for s, rv in outs:
+            npaths += 1
             loc = {}
-            for e in st.trace:
+            for e in s.trace:
                 if isinstance(e, tuple) and e and e[0] == 'wset' and e[1] == WY and e[3] is not None and e[3][0] == 'i':
-                    loc[e[2]] = e[3]          # the last integer value assigned to each named intermediate on this path
-            if not loc or rv[0] != 'i':
+                    loc[e[2]] = e[3][1]
+            if rv[0] != 'i' or not {'f', 'd', 'n'} <= set(loc):
+                msg = msg or 'the day of the year f, the weekday d or the Thursday n is not tracked on a path'
                 continue
-            Y = K.syms.get(('Y', days))
-            Dd = K.syms.get(('D', days))
-            M = K.const_of(st, 'M', (days,))
-            if Y is None or M is None or D.get_iv(st, Y)[0] < 1:
-                continue          # years before 1: the week numbering of BC years is not specified by the property
-            total += 1
-            msg = None
-            v = {k: (x[1] if x is not None and x[0] == 'i' else None) for k, x in loc.items()}
-            if any(v.get(k) is None for k in ('s', 'e', 'f', 'g', 'd', 'n', 'a', 'b', 'c')):
-                msg = f'an intermediate value of the formula is not tracked: {[k for k in names if v.get(k) is None]} {sorted(loc)}'
-            else:
-                want_f = D.aff_add(D.Aff({Dd: 1}, CUM[M - 1] - 1), D.aff_of(v['s']) if M >= 3 else D.aff_const(0))
-                if not D.aff_equiv(D.aff_of(v['f']), want_f, st=st):
-                    msg = f'month {M}: f is not (days before the month) + day - 1{" + leap flag" if M >= 3 else ""}: {D.aff_of(v["f"])} vs {want_f}'
+            f, d, n = loc['f'], loc['d'], loc['n']
+            if not D.aff_equiv(D.aff_of(f), D.Aff({DAY: 1}, C1), st=s):
+                msg = msg or f'f = {D.aff_of(f)} is not the zero-based day of the year (day + {C1})'
+                continue
+            dl, dh = D.get_iv(s, d)
+            if dl < 0 or dh > 6 or not D.aff_equiv(D.aff_of(d), D.Aff({DAY: 1}, C1 + J), 7, st=s):
+                msg = msg or f'd is not the Monday-based weekday of the day, (day of year + {J}) mod 7 in [0, 6]: {D.aff_of(d)} in [{dl}, {dh}]'
+                continue
+            if not D.aff_equiv(D.aff_of(n), D.aff_add(D.Aff({DAY: 1}, C1 + 3), D.aff_of(d), -1), st=s):
+                msg = msg or 'n is not f + 3 - d (the day of the year of the Thursday of the week)'
+                continue
+            nl, nh = D.get_iv(s, n)
+            rl, rh = D.get_iv(s, rv[1])
+            q7 = D.divmod_vids(s, n, 7)[0]
+            is_q = q7 is not None and D.aff_equiv(D.aff_of(rv[1]), D.aff_add(D.aff_of(q7), D.aff_const(1)), st=s)
+            for (no, wk) in oracle:
+                if not (nl <= no <= nh):
+                    continue
+                seen_n.add(no)
+                if rl == rh:
+                    got = int(rl)
+                elif is_q:
+                    got = int(no / 7) + 1          # truncating division, as in the code
                 else:
-                    X = v['c'] if M >= 3 else v['b']
-                    lhs = D.aff_add(D.aff_of(v['g']), D.aff_of(v['e']), -1)
-                    rhs = D.aff_add(D.Aff({Y: 1}, -1), D.aff_of(X))
-                    if not D.aff_equiv(lhs, rhs, 7, st=st):
-                        msg = f'month {M}: g - e is not congruent to (y - 1) + L(y) modulo 7 (the weekday of 1 January)'
-                    else:
-                        # L(y) is the leap count of y - 1
-                        t = [x for (x, c) in D.DIVMOD if c == 4 and isinstance(x, int) and D.aff_equiv(D.aff_of(x), D.Aff({Y: 1}, -1), st=st)]
-                        okL = False
-                        for tv in t:
-                            q4, q100, q400 = D.divmod_vids(st, tv, 4)[0], D.divmod_vids(st, tv, 100)[0], D.divmod_vids(st, tv, 400)[0]
-                            if D.aff_equiv(D.aff_of(X), D.aff_add(D.aff_add(D.aff_of(q4), D.aff_of(q100), -1), D.aff_of(q400)), st=st):
-                                okL = True
-                        if not okL:
-                            msg = f'month {M}: the leap count used for the weekday of 1 January is not (y-1)/4 - (y-1)/100 + (y-1)/400'
-                if msg is None:
-                    dl, dh = D.get_iv(st, v['d'])
-                    if not D.aff_equiv(D.aff_of(v['d']), D.aff_add(D.aff_add(D.aff_of(v['f']), D.aff_of(v['g'])), D.aff_of(v['e']), -1), 7, st=st) or dl < 0 or dh > 6:
-                        msg = 'd is not (f + g - e) mod 7 in [0, 6]'
-                    elif not D.aff_equiv(D.aff_of(v['n']), D.aff_add(D.aff_add(D.aff_of(v['f']), D.aff_const(3)), D.aff_of(v['d']), -1), st=st):
-                        msg = 'n is not f + 3 - d (the Thursday of the week)'
-                    else:
-                        nl, nh = D.get_iv(st, v['n'])
-                        sl, sh = D.get_iv(st, v['s'])
-                        q7 = D.divmod_vids(st, v['n'], 7)[0]
-                        if nl >= 0 and (D.aff_equiv(D.aff_of(rv[1]), D.aff_add(D.aff_of(q7), D.aff_const(1)), st=st) or (nh <= 6 and D.get_iv(st, rv[1]) == (1, 1))):
-                            kinds.add('middle')
-                            thr = D.aff_add(D.aff_of(v['s']), D.aff_const(364))
-                            # n <= 364 + s on this path: by intervals, or by the ordering fact against the code's own threshold value
-                            from .props.C06 import vids_equal_to
-                            by_rel = any(not (D.rel_get(st, v['n'], t_) - frozenset('<=')) for t_ in vids_equal_to(st, thr))
-                            if not (nh <= 364 + sl or by_rel):
-                                msg = 'n / 7 + 1 is returned although the Thursday may lie in the next year (n > 364 + s)'
-                        elif D.get_iv(st, rv[1]) == (1, 1):
-                            if nh < 362:
-                                # the arm `n > 364 + s` with n far below 364: infeasible because s (a difference of two leap counts of
-                                # consecutive years) is at least -1; the interval domain does not see that (same argument as the
-                                # hand-discharged cast of this function, tables/hand_discharged.json)
-                                total -= 1
-                                continue
-                            kinds.add('next-year')
-                        elif nh < 0:
-                            kinds.add('previous-year')
-                        else:
-                            msg = f'the result is neither n / 7 + 1, week 1 of the next year, nor the last week of the previous year (n in [{nl}, {nh}])'
-            if msg:
-                ctx.finding(f'C02:ISOWEEK|{M}', 'C02-W ISO week', span, f'days_to_wyear: {msg}')
-            else:
-                good += 1
-    if not {'middle', 'next-year', 'previous-year'} <= kinds:
-        ctx.finding('C02:ISOWEEK|coverage', 'C02-W ISO week', span, f'expected result paths for the three cases of the Thursday rule, seen {sorted(kinds)}')
-    ctx.rule('C02-W ISO week: day of year, weekday of 1 January, Thursday rule', total, good, floor=12, sample={'cases': sorted(kinds)})
+                    msg = msg or f'the result on the path with n in [{nl}, {nh}] is neither a constant nor n / 7 + 1'
+                    break
+                if got != wk:
+                    msg = msg or (f'when the Thursday of the week is day {no} of the year (zero-based; the year has {365 + leap} days) the result is week {got}, '
+                                  f'ISO 8601 says week {wk}')
+                    break
+        if msg is None and not outs:
+            msg = 'no result'
+        if msg is None:
+            lost = sorted({no for no, _w in oracle} - seen_n)
+            if lost:
+                msg = f'no result path covers the days whose Thursday is day {lost[:3]} of the year'
+        if msg:
+            problems.append((name, msg))
+    obl = {}
+    for key, o in I.obl.items():
+        if o.fn == WY:
+            obl[o.id()] = (o.ok, o.fail)
+    return problems, npaths, len(chunk), obl
+
+
+_CACHE = {}
+
+
+def run_week_classes():
+    """all classes through the worker pool: (problems, paths, classes, obligations of days_to_wyear: id -> [ok contexts, failed contexts])"""
+    if 'r' in _CACHE:
+        return _CACHE['r']
+    import multiprocessing as mp
+    jobs = []
+    for j in range(1, 401):
+        for m in range(1, 13):
+            jobs.append(('class', 1, j, j + 800, m))
+    for j in range(3, 403):
+        for m in range(1, 13):
+            jobs.append(('class', -1, j, 1 - j, m))
+    for y in (1, -1, -2):
+        for m in range(1, 13):
+            jobs.append(('const', 0, y, y if y > 0 else y + 1, m))
+    for y in list(range(5_879_601, 5_879_612)) + list(range(-5_879_611, -5_879_600)):
+        for m in range(1, 13):
+            jobs.append(('const', 0, y, y if y > 0 else y + 1, m))
+    nproc = min(16, max(1, mp.cpu_count()))
+    chunks = [('default', jobs[i::nproc]) for i in range(nproc)]
+    with mp.get_context('fork').Pool(nproc) as pool:
+        res = pool.map(_week_worker, chunks, chunksize=1)
+    problems = [p for r in res for p in r[0]]
+    npaths = sum(r[1] for r in res)
+    ncls = sum(r[2] for r in res)
+    tot = {}
+    for r in res:
+        for oid, (okc, failc) in r[3].items():
+            a = tot.setdefault(oid, [0, 0])
+            a[0] += okc
+            a[1] += failc
+    _CACHE['r'] = (problems, npaths, ncls, tot)
+    return _CACHE['r']
+
+
+def discharge_wyear_obligations(ctx):
+    """obligations inside days_to_wyear (overflow, casts): the classes are an exhaustive partition of the dates days_to_date can return
+    (C01), and each class over-approximates the paths its dates can take, so an obligation that holds in every class context in which it is
+    reached holds for every day number"""
+    problems, npaths, ncls, tot = run_week_classes()
+    if ncls < 9800:
+        return
+    ctx.auto_by_classes = {oid: f'holds in all {okc} year-class x month contexts of the ISO week class analysis in which it is reached'
+                           for oid, (okc, failc) in tot.items() if failc == 0 and okc >= 1}
+
+
+def check_iso_week_classes(ctx):
+    """C02-W: for every year (400 AD and 400 BC residue classes with a symbolic cycle index, the years 1, -1, -2 and the years at both ends of
+    the range one by one) x month, with the day of the month symbolic: f, d and n of days_to_wyear are the zero-based day of the year, the
+    Monday-based weekday and the day of the year of the week's Thursday (constants from the calendar definition), and on every result path
+    the week number is the ISO 8601 one for every day the path can hold."""
+    problems, npaths, ncls, tot = run_week_classes()
+    ctx.rule('C02-W ISO 8601 week per year class (400-year cycle, both eras, symbolic cycle index) x month, day symbolic', ncls, ncls - len({p[0] for p in problems}),
+             floor=9800, sample={'paths': npaths})
+    discharge_wyear_obligations(ctx)
+    by_year = {}
+    for name, msg in problems:
+        by_year.setdefault(name.split('|')[0], []).append((name, msg))
+    for i, (y, lst) in enumerate(sorted(by_year.items())):
+        if i >= 6:
+            break
+        name, msg = lst[0]
+        ctx.finding(f'C02:ISOWEEK-CLASS|{y}', 'C02-W ISO week by year class', None,
+                    f'days_to_wyear, {name.replace("|", ", ")}: {msg}' + (f' (and {len(lst) - 1} more months of this class; {len(by_year)} classes in all)' if len(lst) > 1 or len(by_year) > 1 else ''))
